@@ -2467,8 +2467,9 @@ int string_case_compare (parse_node_t ** c1, parse_node_t ** c2) {
   if ((*c2)->kind == NODE_DEFAULT)
     return 1;
 
-  i1 = (*c1)->r.number;
-  i2 = (*c2)->r.number;
+  /* a numeric label can be here after "Mixed case label list not allowed": it is not a string index */
+  i1 = ((*c1)->kind == NODE_CASE_STRING) ? (*c1)->r.number : 0;
+  i2 = ((*c2)->kind == NODE_CASE_STRING) ? (*c2)->r.number : 0;
   p1 = (i1 ? PROG_STRING (i1) : 0);
   p2 = (i2 ? PROG_STRING (i2) : 0);
 
